@@ -1,15 +1,19 @@
 #!/bin/bash
 # usage: lib/try_mutant.sh <PROPERTY-ID> <patch.diff> [extra check args]
-# applies the patch to a scratch worktree of /repo, runs the check against it, prints the verdict
+# Applies the patch to a scratch worktree of /repo and runs the COMMITTED check (HEAD of /verif) against it
+# from a separate persistent worktree of /verif (/root/scratch/mutverif/verif), so that the main tree's
+# build directory, harness/go.mod and evidence are not disturbed. Prints the verdict.
 ID=$1; PATCH=$(realpath "$2"); shift 2
+MV=/root/scratch/mutverif/verif
+if [ ! -d $MV ]; then mkdir -p /root/scratch/mutverif; git -C /verif worktree add -q --detach $MV HEAD || exit 2; fi
+git -C $MV checkout -q --detach $(git -C /verif rev-parse HEAD) 2>/dev/null || { git -C $MV checkout -q -- . ; git -C $MV checkout -q --detach $(git -C /verif rev-parse HEAD); }
 W=/root/scratch/mut-$$/repo
 mkdir -p /root/scratch/mut-$$
 git -C /repo worktree add -q --detach $W HEAD || exit 2
-if ! git -C $W apply "$PATCH"; then echo "PATCH-DOES-NOT-APPLY"; git -C /repo worktree remove --force $W; exit 2; fi
-cp /verif/evidence/$ID.json /tmp/evidence_$ID.$$.json 2>/dev/null
-OUT=$(cd /verif && VERIF_REPO=$W timeout 1800 ./check $ID "$@" 2>/dev/null)
+if ! git -C $W apply "$PATCH"; then echo "PATCH-DOES-NOT-APPLY"; git -C /repo worktree remove --force $W; rmdir /root/scratch/mut-$$; exit 2; fi
+OUT=$(cd $MV && VERIF_REPO=$W timeout 900 ./check $ID "$@" 2>/dev/null)
 RC=$?
-cp /tmp/evidence_$ID.$$.json /verif/evidence/$ID.json 2>/dev/null; rm -f /tmp/evidence_$ID.$$.json
 echo "$OUT" | grep -E "^VIOLATION|^KNOWN-FINDING|^RESULT|^  ->" | head -8
+git -C $MV checkout -q -- . 2>/dev/null
 git -C /repo worktree remove --force $W; rmdir /root/scratch/mut-$$ 2>/dev/null
-if [ $RC -ne 0 ]; then echo "VERDICT: CAUGHT (exit $RC)"; else echo "VERDICT: MISSED"; fi
+if [ $RC -eq 124 ]; then echo "VERDICT: TIMEOUT (the check did not finish in 900 s)"; elif [ $RC -ne 0 ]; then echo "VERDICT: CAUGHT (exit $RC)"; else echo "VERDICT: MISSED"; fi
